@@ -370,6 +370,24 @@ def execRoot (o : Oracle) (rootTy : String) (fields : List (FInfo × Shape)) : O
   let r := completeFields o rootTy fields [] {}
   (if r.2.1 > 0 then .null else .obj r.1, r.2.2)
 
+def unexpectedNil : String := "unexpected type <nil> from directive, should be graphql.Marshaler"
+
+/-- ... under the operation's own directives (`_queryMiddleware` / `_mutationMiddleware` of `directives.gotpl`):
+    a chain around the whole root object, the last directive of the operation outermost, invoked at the empty
+    path. One that fails makes `data` null with its error (nothing of the operation runs); one that answers
+    `(nil, nil)` without calling `next` does too, with gqlgen's "unexpected type" error. The generated
+    middleware has no recover of its own: a panicking operation directive is the transport's to contain
+    (C04, `Model/Serve.lean`), so `.panic` is reported as such by the driver and not given a response here. -/
+def execOp (o : Oracle) (rootTy : String) (fields : List (FInfo × Shape)) (opDirs : List String) : Out × St :=
+  match runDirs o [] opDirs.reverse {} with
+  | (.reached, st) =>
+    let r := completeFields o rootTy fields [] st
+    (if r.2.1 > 0 then .null else .obj r.1, r.2.2)
+  | (.err m, st) => (.null, st.addErr [] m)
+  | (.block, st) => (.null, st.addErr [] unexpectedNil)
+  | (.panic m, st) => (.null, { st.addErr [] ("panic escapes the generated code: " ++ m) with recovers := st.recovers })
+  | (.missing d, st) => (.null, { st with unlogged := st.unlogged ++ ["@" ++ d] })
+
 end Impl
 
 end GqlgenVerif
